@@ -120,8 +120,11 @@ def check_properties(pid, timeout=900):
             res["output"] += out
             continue
         # recompile the property file itself to capture Print Assumptions
+        # (the output goes to the build directory: rewriting Properties_*.vo in place would make every file that imports
+        # a property file - AttrProofs and what follows it - look out of date at the next `make`)
+        os.makedirs(os.path.join(BUILD, "propcheck"), exist_ok=True)
         with Lock("coq"):
-            r = run(["timeout", str(timeout), "coqc", "-Q", ".", "K", fn], cwd=COQ)
+            r = run(["timeout", str(timeout), "coqc", "-Q", ".", "K", "-o", os.path.join(BUILD, "propcheck", fn[:-2] + ".vo"), fn], cwd=COQ)
         res["output"] += r.stdout
         if r.returncode != 0:
             res["theorems"] += [(t, "not-checked") for t in theorems]
@@ -169,9 +172,11 @@ def build_model():
     """Extract the model from the checked .vo files and compile the OCaml driver."""
     # the modules Extract.v imports must be compiled (a model file no property file depends on would otherwise be
     # missing in a tree where only the property targets were made)
-    mods = re.search(r"From K Require Import ([^.]*)\.", open(os.path.join(EXTRACT, "Extract.v")).read())
+    etext = open(os.path.join(EXTRACT, "Extract.v")).read()
+    mods = re.search(r"From K Require Import ([^.]*)\.", etext)
+    gmods = re.search(r"From K\.generated Require Import ([^.]*)\.", etext)
     if mods:
-        okm, outm = coq_make([m + ".vo" for m in mods.group(1).split()])
+        okm, outm = coq_make([m + ".vo" for m in mods.group(1).split()] + ["generated/" + m + ".vo" for m in (gmods.group(1).split() if gmods else [])])
         if not okm:
             return None, "model files do not compile:\n" + outm[-3000:]
     with Lock("coq"):
@@ -188,7 +193,7 @@ def build_model():
 
 # ------------------------------------------------------ implementation side
 
-def build_harness(tag, sanitize=False, extra_cflags=()):
+def build_harness(tag, sanitize=False, extra_cflags=(), static_config=False):
     """Compile klunok from /repo's working tree + the drivers -> build/<tag>/kdrv."""
     bdir = os.path.join(BUILD, tag)
     shutil.rmtree(bdir, ignore_errors=True)
@@ -217,7 +222,9 @@ def build_harness(tag, sanitize=False, extra_cflags=()):
         for s in WRAPPED + WRAPPED_MAIN + WRAPPED_EXTRA:
             f.write("%s __wrap_%s\n" % (s, s))
     srcs = sorted(glob.glob(os.path.join(REPO, "src", "*.c")))
-    srcs = [s for s in srcs if os.path.basename(s) != "config-static.c"]
+    # two configuration back ends exist: config-lua.c (hot reload, used by every check) and config-static.c (the
+    # default build of the project, without Lua): one of them is linked
+    srcs = [s for s in srcs if os.path.basename(s) != ("config-lua.c" if static_config else "config-static.c")]
     procs = []
     for s in srcs:
         o = os.path.basename(s)[:-2] + ".o"
